@@ -65,7 +65,7 @@ impl Prop for C14 {
         (N_SPECIAL + 7) / 8 * 40 + if tier == Tier::Quick { 1600 } else { 30000 }
     }
     fn required_probes(&self, _tier: Tier) -> Vec<&'static str> {
-        vec!["hostile_script_pubkey", "hostile_script_sig", "hostile_witness_item", "hostile_len_ge_64k", "verify_on", "verbose_run"]
+        vec!["hostile_script_pubkey", "hostile_script_sig", "hostile_witness_item", "hostile_len_ge_64k", "verify_on", "verbose_run", "segment_above_height_gated_rules"]
     }
     fn explore(&self, item: u64, rng: &mut Rng, _tier: Tier, h: &mut Harness) -> Result<(), String> {
         let coin = COINS[(item % 8) as usize];
@@ -80,17 +80,28 @@ impl Prop for C14 {
             random_scripts: false,
             edge_values: false,
         };
-        let nb = rng.usize(2, 6);
+        let group = item / 40;
+        let is_special = group < (N_SPECIAL + 7) / 8;
+        // specials: nine blocks above every height-gated rule, block j+1 carries special j as its coinbase scriptSig
+        let nb = if is_special { 9 } else { rng.usize(2, 6) };
+        let base = if is_special { 227_931u64 } else { *rng.pick(&[0u64, 0, 0, 21_111, 227_931, 500_000]) };
+        scn.base_height = base;
+        let aux_thr = coin_params(coin).auxpow_version;
         for i in 0..nb {
-            let mut b = rich_block(coin, i as u64, rng.usize(1, 3), rng, &sh, false);
+            let mut b = rich_block(coin, base + i as u64, rng.usize(1, 3), rng, &sh, false);
             b.auxpow = None;
             b.version = 1;
+            if is_special || rng.coin() {
+                let v = *rng.pick(&[2u32, 3, 4, 0x2000_0000, 0x3fff_e000]);
+                if aux_thr.map(|t| v < t).unwrap_or(true) {
+                    b.version = v;
+                }
+            }
             scn.chain.push(b);
         }
         // plant hostile fields
         let mut hostile_outputs = vec![];
-        let group = item / 40;
-        let specials: Vec<Vec<u8>> = if group < (N_SPECIAL + 7) / 8 { (0..8).map(|j| special((group * 8 + j) as usize)).collect() } else { vec![] };
+        let specials: Vec<Vec<u8>> = if is_special { (0..8).map(|j| special((group * 8 + j) as usize)).collect() } else { vec![] };
         if !specials.is_empty() {
             scn.family = "special".into();
             h.stats.probe("special_short_script");
@@ -115,6 +126,11 @@ impl Prop for C14 {
                     tx.outputs[oi].script = Bytes(bytes);
                     hostile_outputs.push(json!([bi, ti, oi]));
                 }
+                1 if !specials.is_empty() => {
+                    // special j = coinbase scriptSig of block j+1 (processed with and without --verify)
+                    let j = fi % 8;
+                    scn.chain[j + 1].txs[0].inputs[0].script_sig = Bytes(bytes);
+                }
                 1 => {
                     let ii = rng.usize(0, tx.inputs.len() - 1);
                     if ti == 0 {
@@ -134,9 +150,14 @@ impl Prop for C14 {
         scn.index = index_opts(rng);
         let mut r = RunSpec::new(cb);
         r.threads = pick_threads(rng);
-        r.verify = rng.coin();
+        r.verify = if is_special { item / 8 % 2 == 0 || rng.coin() } else { rng.coin() };
         if r.verify {
-            r.start = Some(1);
+            r.start = Some(base + 1);
+        } else if base > 0 {
+            r.start = Some(base);
+        }
+        if base > 0 {
+            h.stats.probe("segment_above_height_gated_rules");
         }
         if rng.chance(1, 3) {
             r.plan.chunk_blk = random_chunks(rng);
